@@ -8,11 +8,11 @@
 
    The proofs rest on one decomposition, generic in the element type and the back end (Proofs/KernelValue.v):
      generic_cosine a b = cosine (value of generic_dot_product a b) (value of generic_squared_norm a) (.. of b). *)
-From Coq Require Import ZArith List Bool.
-From Flocq Require Import IEEE754.BinarySingleNaN.
+From Coq Require Import ZArith Reals List Bool.
+From Flocq Require Import Core IEEE754.BinarySingleNaN.
 From CF Require Import Base.Mem Model.Tables Model.Prim Model.SimdApi Model.Kernels Model.Regs Model.Spec.
 From CF Require Import Proofs.KernelBounds Proofs.ReduceCorrect Proofs.SpecLink Proofs.FloatBackends
-     Proofs.KernelValue Proofs.CosineInt Proofs.CosineFloat.
+     Proofs.BackendTable Proofs.RoundErr Proofs.KernelValue Proofs.CosineInt Proofs.CosineFloat Proofs.CosineAccuracy.
 Import ListNotations.
 
 (** (i) The three branches of op_cosine::cosine, for ANY element type and math layer: both squared norms compare
@@ -145,9 +145,135 @@ Theorem C06_symmetric_f64 :
     end.
 Proof. exact f64_cosine_symmetric. Qed.
 
+Local Open Scope R_scope.
+(** (iv) Floats: accuracy, range, identical vectors.  u = 2^-prec; [nosub prec emin x]: x = 0 or |x| >= 2^(emin+prec-1)
+    ("the product does not underflow"); NXr a = sum a_j^2, DOTr a b = sum a_j b_j — EXACT real sums ([C06_reads]).
+    For ANY lane-wise faithful back end (fused or unfused), every length n, all FINITE inputs in the well-scaled domain
+      (D1) no product a_j^2, b_j^2, a_j b_j in the subnormal range,
+      (D2) 4 * 2^(emin+prec-1) <= |a|^2 |b|^2  (neither squared norm is zero, their product is in the normal range),
+      (D3) |a|^2, |b|^2, |a|^2 |b|^2 <= 2^(emax-2)  (nothing overflows),
+      (D4) (n+8) u <= 1/16:
+    the run returns in bounds a finite r within 4(n+8)u of 1 - a.b / sqrt (|a|^2 |b|^2). *)
+Theorem C06_reads :
+  forall (prec emax : Z) (a b : list (binary_float prec emax)),
+    NXr a = Rsum (map (fun x => B2R x * B2R x) a)
+    /\ DOTr a b = Rsum (map2 (fun p q => B2R p * B2R q) a b)
+    /\ (forall l : list R, Rsum l = fold_right Rplus 0 l)
+    /\ u prec = bpow radix2 (- prec)
+    /\ (forall emin x, nosub prec emin x <-> (x = 0 \/ bpow radix2 (emin + prec - 1) <= Rabs x)).
+Proof. exact @accuracy_reads. Qed.
+
+Theorem C06_accuracy :
+  forall (prec emax : Z) (Hp : FLX.Prec_gt_0 prec) (He : Prec_lt_emax prec emax)
+         (R : SimdOps (binary_float prec emax)) vmax vmin fused,
+    FloatLanewise R vmax vmin fused ->
+    forall (a b res : list (binary_float prec emax)) (dims : nat),
+    length a = dims -> length b = dims ->
+    Forall (fun x => is_finite x = true) a -> Forall (fun x => is_finite x = true) b ->
+    Forall (fun x => nosub prec (SpecFloat.emin prec emax) (B2R x * B2R x)) a ->
+    Forall (fun x => nosub prec (SpecFloat.emin prec emax) (B2R x * B2R x)) b ->
+    Forall2 (fun x y => nosub prec (SpecFloat.emin prec emax) (B2R x * B2R y)) a b ->
+    (INR (dims + 8) * u prec <= / 16)%R ->
+    (4 * bpow radix2 (SpecFloat.emin prec emax + prec - 1) <= NXr a * NXr b)%R ->
+    (NXr a <= bpow radix2 (emax - 2))%R -> (NXr b <= bpow radix2 (emax - 2))%R ->
+    (NXr a * NXr b <= bpow radix2 (emax - 2))%R ->
+    match generic_cosine R float_math dims (init_mem a b res) with
+    | Ok r m => run_ok (init_mem a b res) m /\ is_finite r = true /\
+                (Rabs (B2R r - (1 - DOTr a b / sqrt (NXr a * NXr b))) <= 4 * (INR (dims + 8) * u prec))%R
+    | _ => False
+    end.
+Proof. exact @cosine_accuracy. Qed.
+
+(* hence, by Cauchy-Schwarz on lists, the result is within that tolerance of [0, 2] *)
+Theorem C06_range :
+  forall (prec emax : Z) (Hp : FLX.Prec_gt_0 prec) (He : Prec_lt_emax prec emax)
+         (R : SimdOps (binary_float prec emax)) vmax vmin fused,
+    FloatLanewise R vmax vmin fused ->
+    forall (a b res : list (binary_float prec emax)) (dims : nat),
+    length a = dims -> length b = dims ->
+    Forall (fun x => is_finite x = true) a -> Forall (fun x => is_finite x = true) b ->
+    Forall (fun x => nosub prec (SpecFloat.emin prec emax) (B2R x * B2R x)) a ->
+    Forall (fun x => nosub prec (SpecFloat.emin prec emax) (B2R x * B2R x)) b ->
+    Forall2 (fun x y => nosub prec (SpecFloat.emin prec emax) (B2R x * B2R y)) a b ->
+    (INR (dims + 8) * u prec <= / 16)%R ->
+    (4 * bpow radix2 (SpecFloat.emin prec emax + prec - 1) <= NXr a * NXr b)%R ->
+    (NXr a <= bpow radix2 (emax - 2))%R -> (NXr b <= bpow radix2 (emax - 2))%R ->
+    (NXr a * NXr b <= bpow radix2 (emax - 2))%R ->
+    match generic_cosine R float_math dims (init_mem a b res) with
+    | Ok r m => (- (4 * (INR (dims + 8) * u prec)) <= B2R r <= 2 + 4 * (INR (dims + 8) * u prec))%R
+    | _ => False
+    end.
+Proof. exact @cosine_range. Qed.
+
+(* the Cauchy-Schwarz inequality used: |sum x_j y_j| <= sum |x_j y_j| and (sum |x_j y_j|)^2 <= sum x_j^2 * sum y_j^2 *)
+Theorem C06_cauchy_schwarz :
+  forall a b : list R,
+    (Rabs (Rsum (map2 (fun x y => x * y) a b)) <= Rsum (map2 (fun x y => Rabs (x * y)) a b))%R
+    /\ (Rsum (map2 (fun x y => Rabs (x * y)) a b) * Rsum (map2 (fun x y => Rabs (x * y)) a b)
+        <= Rsum (map (fun x => x * x) a) * Rsum (map (fun x => x * x) b))%R.
+Proof. exact (fun a b => conj (CosineReal.dot_le_abs a b) (proj2 (CosineReal.cauchy_schwarz_abs a b))). Qed.
+
+(* and about 0 for identical vectors *)
+Theorem C06_identical :
+  forall (prec emax : Z) (Hp : FLX.Prec_gt_0 prec) (He : Prec_lt_emax prec emax)
+         (R : SimdOps (binary_float prec emax)) vmax vmin fused,
+    FloatLanewise R vmax vmin fused ->
+    forall (a res : list (binary_float prec emax)) (dims : nat),
+    length a = dims -> Forall (fun x => is_finite x = true) a ->
+    Forall (fun x => nosub prec (SpecFloat.emin prec emax) (B2R x * B2R x)) a ->
+    (INR (dims + 8) * u prec <= / 16)%R ->
+    (4 * bpow radix2 (SpecFloat.emin prec emax + prec - 1) <= NXr a * NXr a)%R ->
+    (NXr a <= bpow radix2 (emax - 2))%R -> (NXr a * NXr a <= bpow radix2 (emax - 2))%R ->
+    match generic_cosine R float_math dims (init_mem a a res) with
+    | Ok r m => (Rabs (B2R r) <= 4 * (INR (dims + 8) * u prec))%R
+    | _ => False
+    end.
+Proof. exact @cosine_identical. Qed.
+
+(* instances: every modelled f32 / f64 back end of the export tables (Fallback, Avx2, Avx2Fma, Avx512), with the
+   format's numbers written out: u = 2^-24 / 2^-53, smallest normal 2^-126 / 2^-1022 *)
+Theorem C06_accuracy_f32 :
+  forall r (R : SimdOps f32) (a b res : list f32) (dims : nat),
+    f32_ops r = Some R -> length a = dims -> length b = dims ->
+    Forall (fun x => is_finite x = true) a -> Forall (fun x => is_finite x = true) b ->
+    Forall (fun x => nosub 24 (-149) (B2R x * B2R x)) a ->
+    Forall (fun x => nosub 24 (-149) (B2R x * B2R x)) b ->
+    Forall2 (fun x y => nosub 24 (-149) (B2R x * B2R y)) a b ->
+    (INR (dims + 8) * bpow radix2 (-24) <= / 16)%R ->
+    (4 * bpow radix2 (-126) <= NXr a * NXr b)%R ->
+    (NXr a <= bpow radix2 126)%R -> (NXr b <= bpow radix2 126)%R -> (NXr a * NXr b <= bpow radix2 126)%R ->
+    match generic_cosine R float_math dims (init_mem a b res) with
+    | Ok x m => run_ok (init_mem a b res) m /\ is_finite x = true /\
+                (Rabs (B2R x - (1 - DOTr a b / sqrt (NXr a * NXr b))) <= 4 * (INR (dims + 8) * bpow radix2 (-24)))%R
+                /\ (- (4 * (INR (dims + 8) * bpow radix2 (-24))) <= B2R x <= 2 + 4 * (INR (dims + 8) * bpow radix2 (-24)))%R
+    | _ => False
+    end.
+Proof. exact f32_cosine_accuracy. Qed.
+
+Theorem C06_accuracy_f64 :
+  forall r (R : SimdOps f64) (a b res : list f64) (dims : nat),
+    f64_ops r = Some R -> length a = dims -> length b = dims ->
+    Forall (fun x => is_finite x = true) a -> Forall (fun x => is_finite x = true) b ->
+    Forall (fun x => nosub 53 (-1074) (B2R x * B2R x)) a ->
+    Forall (fun x => nosub 53 (-1074) (B2R x * B2R x)) b ->
+    Forall2 (fun x y => nosub 53 (-1074) (B2R x * B2R y)) a b ->
+    (INR (dims + 8) * bpow radix2 (-53) <= / 16)%R ->
+    (4 * bpow radix2 (-1022) <= NXr a * NXr b)%R ->
+    (NXr a <= bpow radix2 1022)%R -> (NXr b <= bpow radix2 1022)%R -> (NXr a * NXr b <= bpow radix2 1022)%R ->
+    match generic_cosine R float_math dims (init_mem a b res) with
+    | Ok x m => run_ok (init_mem a b res) m /\ is_finite x = true /\
+                (Rabs (B2R x - (1 - DOTr a b / sqrt (NXr a * NXr b))) <= 4 * (INR (dims + 8) * bpow radix2 (-53)))%R
+                /\ (- (4 * (INR (dims + 8) * bpow radix2 (-53))) <= B2R x <= 2 + 4 * (INR (dims + 8) * bpow radix2 (-53)))%R
+    | _ => False
+    end.
+Proof. exact f64_cosine_accuracy. Qed.
+Local Close Scope R_scope.
+
 Check C06_branches. Check C06_panics_iff_division_fails. Check C06_decomposition.
 Check C06_int. Check C06_int_spec_reads. Check C06_int_panic_iff. Check C06_int_backend_independent.
 Check C06_symmetric. Check C06_symmetric_f32. Check C06_symmetric_f64.
+Check C06_reads. Check C06_accuracy. Check C06_range. Check C06_cauchy_schwarz. Check C06_identical.
+Check C06_accuracy_f32. Check C06_accuracy_f64.
 
 (* Non-vacuity: concrete runs of the AVX2 u8 model (32 lanes) reach all four outcomes.
    35 elements = one register step and a 3-element tail.
@@ -167,5 +293,15 @@ Example C06_nonvacuous :
   | Ok (RValue x1) _, Ok (RValue x2) _, Ok (RValue x3) _, Panic _ => x1 = 255%Z /\ x2 = 0%Z /\ x3 = 1%Z
   | _, _, _, _ => False
   end
-  /\ spec_int false 8 KCosine 0%Z (ones 16 ++ repeat 0%Z 19) (ones 16 ++ repeat 0%Z 19) = SPanic.
-Proof. vm_compute. repeat split; reflexivity. Qed.
+  /\ spec_int false 8 KCosine 0%Z (ones 16 ++ repeat 0%Z 19) (ones 16 ++ repeat 0%Z 19) = SPanic
+  (* and the well-scaled float domain of C06_accuracy / C06_identical is inhabited: a = b = [1; 1] in f32 on the
+     AVX2+FMA model satisfies every hypothesis, so the result is within 4 * 10 * 2^-24 of 0 *)
+  /\ (let a : list f32 := [Bone; Bone] in
+      match f32_ops Avx2Fma with
+      | Some Rg => match generic_cosine Rg float_math 2 (init_mem a a []) with
+                   | Ok r _ => (Rabs (B2R r) <= 4 * (INR 10 * bpow radix2 (-24)))%R
+                   | _ => False
+                   end
+      | None => False
+      end).
+Proof. split; [|split]; [vm_compute; repeat split; reflexivity | vm_compute; reflexivity | exact accuracy_nonvacuous]. Qed.
